@@ -40,11 +40,12 @@ PROPS = {
             "VM_run_deterministic": [],
             "VM_budget_bound": [],
             "VM_timeout_reported": [],
-            "VM_timeout_reported_run": [],
+            "VM_budget_bound_flat": [],
             "VM_budget_monotone": [],
-            "VM_count_monotone": [],
+            "VM_timeout_reported_run": [],
             "VM_step_count_rel": [],
-            "VM_budget_bound_nested_refuted": [],
+            "VM_budget_bound_legacy_refuted": [],
+            "VM_witness_is_cut_off_now": [],
         },
         n_quick=200, n_thorough=2000,
         gates=["feature.closure", "feature.reentry", "feature.foreach", "feature.call", "feature.real",
@@ -63,8 +64,9 @@ PROPS = {
             "Flocq binary64 (VmFloat.v) is used by the checker only; the theorems are generic in the float instance",
         ],
         assumptions=[
-            "theorems about `run_flat` concern runs whose natives do not re-enter the interpreter; for `run` the bound "
-            "is refuted (A-11)",
+            "theorems about `run_flat` concern runs whose natives do not re-enter the interpreter (VmCheck reports code 5 "
+            "if run_flat and run ever disagree on such a run); the budget bound is proved for `run` with re-entry, and "
+            "refuted for the budget rule of the pinned tree (`run_legacy`, A-11)",
             "32-bit FNV collisions between unequal table keys, table keys mutated after insertion, UTF-8 validity of "
             "string data and garbage collection are outside the model",
         ],
